@@ -302,6 +302,8 @@ def exact_forms(v, f32=False):
         out.append(('npi64', np.int64(i)))
         if -2 ** 31 <= i < 2 ** 31:
             out.append(('npi32', np.int32(i)))
+        if -2 ** 15 <= i < 2 ** 15:
+            out.append(('npi16', np.int16(i)))
         if 0 <= i:
             out.append(('npu64', np.uint64(i)))
             if i < 2 ** 32:
